@@ -3,12 +3,24 @@
 types: kind of each dotted input (default 'num'); 'obj' marks object parameters
 whose attributes are read (`rays.x`).  outputs: attributes written by the method
 that are part of the result (after the return value).  calls: dotted call
-expression -> kernel name.
+expression -> kernel name (callee's `self` is the call's receiver).
+opaque_calls: dotted call -> kind; the call's result becomes an input.
+static: compile-time facts about None-tests.
 """
 RR = 'optiland/rays/real_rays.py'
+BR = 'optiland/rays/base.py'
 STD = 'optiland/geometries/standard.py'
+NR = 'optiland/geometries/newton_raphson.py'
+EA = 'optiland/geometries/even_asphere.py'
+PG = 'optiland/geometries/polynomial.py'
+CH = 'optiland/geometries/chebyshev.py'
+PA = 'optiland/physical_apertures.py'
+CO = 'optiland/coatings.py'
 
-MODULE_DEPS = {}
+MODULE_DEPS = {
+    'Geometries': ['RealRays'],
+    'Apertures': ['RealRays'],
+}
 
 MODULES = {
     'RealRays': [
@@ -25,6 +37,16 @@ MODULES = {
              outputs=['self.x', 'self.z', 'self.L', 'self.N']),
         dict(name='rotate_z', file=RR, cls='RealRays', func='rotate_z',
              outputs=['self.x', 'self.y', 'self.L', 'self.M']),
+        dict(name='translate', file=BR, cls='BaseRays', func='translate',
+             outputs=['self.x', 'self.y', 'self.z']),
+        dict(name='propagate', file=RR, cls='RealRays', func='propagate',
+             static={'material': 'notnone'}, opaque_calls={'material.k': 'num'},
+             outputs=['self.x', 'self.y', 'self.z', 'self.i']),
+        dict(name='propagate_vac', file=RR, cls='RealRays', func='propagate',
+             static={'material': 'none'},
+             outputs=['self.x', 'self.y', 'self.z']),
+        dict(name='rr_clip', file=RR, cls='RealRays', func='clip', types={'condition': 'bool'},
+             outputs=['self.i']),
     ],
     'Standard': [
         dict(name='std_sag', file=STD, cls='StandardGeometry', func='sag'),
@@ -35,4 +57,40 @@ MODULES = {
         dict(name='plane_distance', file='optiland/geometries/plane.py', cls='Plane', func='distance',
              types={'rays': 'obj'}),
     ],
+    'Geometries': [
+        dict(name='nr_sphere', file=NR, cls='NewtonRaphsonGeometry', func='_intersection_sphere',
+             types={'rays': 'obj'}),
+        dict(name='ea_sag', file=EA, cls='EvenAsphere', func='sag', types={'self.c': 'list'}),
+        dict(name='ea_normal', file=EA, cls='EvenAsphere', func='_surface_normal', types={'self.c': 'list'}),
+        dict(name='pg_sag', file=PG, cls='PolynomialGeometry', func='sag', types={'self.c': 'list2'}),
+        dict(name='pg_normal', file=PG, cls='PolynomialGeometry', func='_surface_normal',
+             types={'self.c': 'list2'}),
+        dict(name='cheb_T', file=CH, cls='ChebyshevPolynomialGeometry', func='_chebyshev', types={'n': 'int'}),
+        dict(name='cheb_dT', file=CH, cls='ChebyshevPolynomialGeometry', func='_chebyshev_derivative',
+             types={'n': 'int'}),
+        dict(name='cheb_validate', file=CH, cls='ChebyshevPolynomialGeometry', func='_validate_inputs'),
+        dict(name='cheb_sag', file=CH, cls='ChebyshevPolynomialGeometry', func='sag',
+             types={'self.c': 'list2'},
+             calls={'self._validate_inputs': 'cheb_validate', 'self._chebyshev': 'cheb_T'}),
+        dict(name='cheb_normal', file=CH, cls='ChebyshevPolynomialGeometry', func='_surface_normal',
+             types={'self.c': 'list2'},
+             calls={'self._validate_inputs': 'cheb_validate', 'self._chebyshev': 'cheb_T',
+                    'self._chebyshev_derivative': 'cheb_dT'}),
+    ],
+    'Apertures': [
+        dict(name='radial_clip', file=PA, cls='RadialAperture', func='clip', types={'rays': 'obj'},
+             calls={'rays.clip': 'rr_clip'}, outputs=['rays.i']),
+        dict(name='coat_transmit', file=CO, cls='SimpleCoating', func='transmit', types={'rays': 'obj'},
+             outputs=['rays.i']),
+        dict(name='coat_reflect', file=CO, cls='SimpleCoating', func='reflect', types={'rays': 'obj'},
+             outputs=['rays.i']),
+    ],
 }
+
+
+# per-property kernel files (tools/kernels_Cxx.py) add their own modules
+import glob as _glob, importlib as _importlib, os as _os
+for _f in sorted(_glob.glob(_os.path.join(_os.path.dirname(_os.path.abspath(__file__)), 'kernels_*.py'))):
+    _m = _importlib.import_module(_os.path.basename(_f)[:-3])
+    MODULES.update(getattr(_m, 'MODULES', {}))
+    MODULE_DEPS.update(getattr(_m, 'MODULE_DEPS', {}))
